@@ -776,6 +776,201 @@ theorem checkAuth_conn_cached (cfg : Config) (M : Matcher) (ans : Request → Op
   all_goals rfl
 
 
+/-! ## which commands can touch the broker at all, and who can leave the initial state -/
+
+/-- a SUB that was accepted -/
+def IsSubSuccess (q : Rec) : Prop :=
+  ∃ now ans args, q.ev = .cmd now ans (.sub args) ∧ q.res.replies = [.ok]
+
+/-- the commands whose handler can change the broker: the four gated ones, and FIN / REQ / TOUCH
+(which need a subscription) -/
+def Cmd.isChanCmd : Cmd → Bool
+  | .fin _ => true
+  | .req _ => true
+  | .touch _ => true
+  | _ => false
+
+theorem dispatch_broker_other (E : Ext) (cfg : Config) (M : Matcher) (ans : Request → Option Resp)
+    (now : Int) (c : Conn) (b : Broker) (cmd : Cmd)
+    (h1 : cmd.isGated = false) (h2 : Cmd.isChanCmd cmd = false) :
+    (dispatch E cfg M ans now c b cmd).broker = b := by
+  cases cmd <;> simp [Cmd.isGated, Cmd.isChanCmd] at h1 h2
+  · simp [dispatch, fatalRes]
+  · simp only [dispatch]; exact execAuth_broker ..
+  · simp only [dispatch]; unfold execRdy; repeat' split
+    all_goals simp [fatalRes, okRes]
+  · simp only [dispatch]; unfold execCls; repeat' split
+    all_goals simp [fatalRes, okRes]
+  · simp [dispatch, okRes]
+  · simp [dispatch, fatalRes]
+
+theorem execChanCmd_broker (E : Ext) (name : String) (n : Nat) (c : Conn) (b : Broker) (args : List String)
+    (h : (execChanCmd E name n c b args).broker ≠ b) : c.state ≠ .init := by
+  unfold execChanCmd at h
+  by_cases h1 : c.state ≠ .subscribed ∧ c.state ≠ .closing
+  · simp [h1, fatalRes] at h
+  · intro hi
+    apply h1
+    rw [hi]; exact ⟨by decide, by decide⟩
+
+theorem dispatch_broker_chan (E : Ext) (cfg : Config) (M : Matcher) (ans : Request → Option Resp)
+    (now : Int) (c : Conn) (b : Broker) (cmd : Cmd) (h2 : Cmd.isChanCmd cmd = true)
+    (h : (dispatch E cfg M ans now c b cmd).broker ≠ b) : c.state ≠ .init := by
+  cases cmd <;> simp [Cmd.isChanCmd] at h2
+  all_goals (simp only [dispatch] at h; exact execChanCmd_broker _ _ _ _ _ _ h)
+
+/-- the state of a connection leaves `init` only through an accepted SUB -/
+theorem dispatch_state (E : Ext) (cfg : Config) (M : Matcher) (ans : Request → Option Resp)
+    (now : Int) (c : Conn) (b : Broker) (cmd : Cmd)
+    (h : (dispatch E cfg M ans now c b cmd).conn.state ≠ .init) :
+    c.state ≠ .init ∨ ((∃ args, cmd = .sub args) ∧ (dispatch E cfg M ans now c b cmd).replies = [.ok]) := by
+  by_cases hc : c.state ≠ .init
+  · exact Or.inl hc
+  have hc' : c.state = .init := by simpa using hc
+  right
+  have cst : ∀ t ch, (checkAuth cfg M ans now c t ch).conn.state = .init := by
+    intro t ch
+    rcases checkAuth_conn cfg M ans now c t ch with h' | ⟨_, _, _, _, _, _, _, h'⟩ <;> simp [h', hc']
+  cases cmd with
+  | sub args =>
+    refine ⟨⟨args, rfl⟩, ?_⟩
+    simp only [dispatch] at h ⊢
+    unfold execSub at h ⊢
+    by_cases h0 : c.state ≠ .init
+    · exact absurd hc' h0
+    by_cases h00 : c.hbOff = true
+    · exfalso; simp [h0, h00, fatalRes, hc'] at h
+    by_cases h1 : args.length < 2
+    · exfalso; simp [h0, h00, h1, fatalRes, hc'] at h
+    by_cases h2 : validName (argAt args 0) = false
+    · exfalso; simp [h0, h00, h1, h2, fatalRes, hc'] at h
+    by_cases h3 : validName (argAt args 1) = false
+    · exfalso; simp [h0, h00, h1, h2, h3, fatalRes, hc'] at h
+    cases hd : (checkAuth cfg M ans now c (argAt args 0) (argAt args 1)).deny with
+    | some code => exfalso; simp [h0, h00, h1, h2, h3, hd, deniedRes, cst] at h
+    | none => simp [h0, h00, h1, h2, h3, hd]
+  | identify d => exfalso; simp [dispatch, fatalRes, hc'] at h
+  | auth args size secret =>
+    exfalso
+    simp only [dispatch] at h; unfold execAuth at h
+    repeat' split at h
+    all_goals simp [fatalRes, hc'] at h
+  | pub args size =>
+    exfalso
+    simp only [dispatch] at h; unfold execPub at h
+    repeat' split at h
+    all_goals simp [fatalRes, deniedRes, hc', cst] at h
+  | mpub args size count sizes =>
+    exfalso
+    simp only [dispatch] at h; unfold execMpub at h
+    repeat' split at h
+    all_goals simp [fatalRes, deniedRes, hc', cst] at h
+  | dpub args size =>
+    exfalso
+    simp only [dispatch] at h; unfold execDpub at h
+    repeat' split at h
+    all_goals simp [fatalRes, deniedRes, hc', cst] at h
+  | rdy args =>
+    exfalso
+    simp only [dispatch] at h; unfold execRdy at h
+    repeat' split at h
+    all_goals simp [fatalRes, okRes, hc'] at h
+  | fin args =>
+    exfalso
+    simp only [dispatch] at h; unfold execChanCmd at h
+    repeat' split at h
+    all_goals simp_all [fatalRes, okRes]
+  | req args =>
+    exfalso
+    simp only [dispatch] at h; unfold execChanCmd at h
+    repeat' split at h
+    all_goals simp_all [fatalRes, okRes]
+  | touch args =>
+    exfalso
+    simp only [dispatch] at h; unfold execChanCmd at h
+    repeat' split at h
+    all_goals simp_all [fatalRes, okRes]
+  | cls =>
+    exfalso
+    simp only [dispatch] at h; unfold execCls at h
+    repeat' split at h
+    all_goals simp_all [fatalRes, okRes]
+  | nop => exfalso; simp [dispatch, okRes, hc'] at h
+  | unknown n => exfalso; simp [dispatch, fatalRes, hc'] at h
+
+theorem execIdentify_state (cfg : Config) (c : Conn) (b : Broker) (d : IdentifyData) :
+    (execIdentify cfg c b d).conn.state = c.state := by
+  unfold execIdentify
+  repeat' split
+  all_goals simp [fatalRes, okRes]
+
+theorem exec_state (E : Ext) (cfg : Config) (M : Matcher) (ans : Request → Option Resp)
+    (now : Int) (c : Conn) (b : Broker) (cmd : Cmd)
+    (h : (exec E cfg M ans now c b cmd).conn.state ≠ .init) :
+    c.state ≠ .init ∨ ((∃ args, cmd = .sub args) ∧ (exec E cfg M ans now c b cmd).replies = [.ok]) := by
+  cases cmd with
+  | identify d =>
+    left
+    simp only [exec] at h
+    rw [execIdentify_state] at h; exact h
+  | _ =>
+    simp only [exec] at h ⊢
+    split at h
+    · left; simpa [fatalRes] using h
+    · rename_i hb
+      simp only [hb]
+      exact dispatch_state _ _ _ _ _ _ _ _ h
+
+theorem after_state (r : Res) : (after r).conn.state = r.conn.state := by
+  unfold after; split <;> rfl
+
+theorem stepEv_state (E : Ext) (cfg : Config) (M : Matcher) (s : St) (e : Ev)
+    (h : (after (stepEv E cfg M s e)).conn.state ≠ .init) :
+    s.conn.state ≠ .init ∨
+      IsSubSuccess { pre := s, ev := e, res := stepEv E cfg M s e, post := after (stepEv E cfg M s e) } := by
+  rw [after_state] at h
+  cases e with
+  | env b' => left; simpa [stepEv] using h
+  | cmd now ans c =>
+    simp only [stepEv] at h ⊢
+    by_cases hcl : s.conn.closed = true
+    · rw [step_closed _ _ _ _ _ _ _ _ hcl] at h; exact Or.inl h
+    · have hcl' : s.conn.closed = false := by simpa using hcl
+      rw [step_open _ _ _ _ _ _ _ _ hcl'] at h ⊢
+      rcases exec_state E cfg M ans now s.conn s.broker c h with h1 | ⟨⟨args, hc⟩, h2⟩
+      · exact Or.inl h1
+      · right; exact ⟨now, ans, args, by rw [hc], h2⟩
+
+/-- In any history, a connection that is no longer in its initial state had an earlier SUB
+accepted (or started that way). -/
+theorem trace_state (E : Ext) (cfg : Config) (M : Matcher) (evs : List Ev) (s : St)
+    (pre : List Rec) (r : Rec) (post : List Rec)
+    (h : trace E cfg M s evs = pre ++ r :: post) (ht : r.pre.conn.state ≠ .init) :
+    s.conn.state ≠ .init ∨ ∃ q ∈ pre, IsSubSuccess q :=
+  trace_inv E cfg M (fun s => s.conn.state ≠ .init) IsSubSuccess (stepEv_state E cfg M) evs s pre r post h ht
+
+/-- an accepted SUB on an auth-enabled server was issued by a connection holding authorizations -/
+theorem sub_success_hasAuth (E : Ext) (cfg : Config) (M : Matcher) (ans : Request → Option Resp)
+    (now : Int) (c : Conn) (b : Broker) (args : List String) (hauth : cfg.authEnabled = true)
+    (h : (step E cfg M ans now c b (.sub args)).replies = [.ok]) : hasAuthorizations c = true := by
+  by_cases hcl : c.closed = true
+  · rw [step_closed _ _ _ _ _ _ _ _ hcl] at h; simp at h
+  have hcl' : c.closed = false := by simpa using hcl
+  rw [step_open _ _ _ _ _ _ _ _ hcl'] at h
+  by_cases hb : tlsBlocked cfg c = true
+  · rw [exec_tls_blocked _ _ _ _ _ _ _ _ hb rfl] at h; simp [fatalRes] at h
+  have hex : exec E cfg M ans now c b (.sub args) = execSub cfg M ans now c b args := by
+    simp [exec, hb, dispatch]
+  rw [hex] at h
+  rcases execSub_cases cfg M ans now c b args with ⟨code, _, hr⟩ | ⟨code, _, hr⟩ | ⟨hd, _⟩
+  · rw [hr] at h; simp [fatalRes] at h
+  · rw [hr] at h; simp [deniedRes] at h
+  · rw [checkAuth_deny _ _ _ _ _ _ _ hauth] at hd
+    by_cases hha : hasAuthorizations c = true
+    · exact hha
+    · have : hasAuthorizations c = false := by simpa using hha
+      simp [this] at hd
+
 /-! ## small concrete objects for the non-vacuity examples of `Nsq.Props.C11` -/
 
 /-- FIN / REQ / TOUCH do nothing -/
